@@ -4,4 +4,5 @@ EA == (1 :> << <<"ins", 2>>, <<"era", 2>> >>) @@ (2 :> << <<"ins", 1>>, <<"find"
 EB == (1 :> << <<"ins", 2>>, <<"era", 3>> >>) @@ (2 :> << <<"ins", 3>>, <<"find", 2>> >>) @@ (3 :> << <<"ins", 1>>, <<"era", 2>> >>)
 \* seeded change C15: two inserts under the same leaf, four completed operations on the parent in between are not needed when CleanPeriod = 4
 EC == (1 :> << <<"ins", 1>> >>) @@ (2 :> << <<"ins", 2>> >>)
+ED == (1 :> << <<"ins", 2>> >>) @@ (2 :> << <<"ins", 3>>, <<"era", 2>> >>) @@ (3 :> << <<"ins", 1>>, <<"find", 2>> >>)
 ====
